@@ -22,6 +22,7 @@ def run(rep: Report, repo: Repo):
     mod = repo.mod('def_file')
     text, gnode = grammar.extract_grammar(mod)
     G = grammar.Grammar(text, 'def_file')
+    grammar.fresh_parser_rule(rep, 'C20.fresh', mod, 'DefTransformer')
     rep.rule('C20.grammar', 'DEF grammar <-> DefTransformer: arity, kind, exhaustiveness, no dead callback')
     consumed = ('propdef', 'propdef_stmt', 'vias', 'nondef', 'nondef_stmt', 'comp', 'pins', 'pinprop', 'pinprop_stmt', 'spnets', 'nets', 'spwire_opt', 'wire_opt')
     methods, handlers, n = grammar.check_agreement(rep, 'C20.grammar', mod, G, 'DefTransformer', consumed_as_tree=consumed)
